@@ -74,6 +74,15 @@ def build_cases(tier, backend):
         add("bool", "kind-arg", t, per.format(f"j.kind({t})"), ("kind", "bool"))
         add("bool", "column", t, per.format(t), ("boolvalue", v))
         add("bool", "compare", t, per.format(f"j.isGood() == {t}"), ("value", v))
+    # two constants of different kinds that compare equal in Python (1 == 1.0 == True, 0 == 0.0 == -0.0 == False) in ONE query,
+    # in both orders: each keeps its own kind and value
+    KCLS = {"1": "integral", "1.0": "floating", "True": "bool", "0": "integral", "0.0": "floating", "-0.0": "floating", "False": "bool"}
+    for group in (("1", "1.0", "True"), ("0", "0.0", "-0.0", "False")):
+        for x, y in itertools.permutations(group, 2):
+            add("pair", "kind-args", f"{x},{y}", per.format(f"(j.kind({x}), j.kind({y}))"), ("kinds2", (KCLS[x], KCLS[y])))
+            if KCLS[x] == "floating" and KCLS[y] == "floating":
+                add("pair", "echo-args", f"{x},{y}", per.format(f"(j.echoD({x}), j.echoD({y}))"), ("bits2", (float(x), float(y))))
+            add("pair", "filter-then-kind", f"{x},{y}", f"ds.SelectMany(lambda e: e.{coll}('A')).Where(lambda j: j.pt() > {x}).Select(lambda j: j.kind({y}))", ("kind", KCLS[y]))
     for s in strings(2 if tier == "quick" else 3):
         r = repr(s)
         add("str", "echo-arg", r, per.format(f"j.echoS({r})"), ("echo", s))
@@ -127,6 +136,18 @@ def judge(c, o, evs):
             return "ok", None
         if er.end != "ok" or not er.rows:
             return "bad", dict(base, symptom="no-row", end=er.end, what=er.what[:100])
+        if kind in ("kinds2", "bits2"):
+            cells = er.rows[0][1][:2]
+            if kind == "kinds2":
+                names = {1: "bool", 2: "integral", 3: "integral", 4: "integral", 5: "floating", 6: "floating", 7: "floating", 8: "string"}
+                got = tuple(names.get(int(parse_value(c_)), "?") for c_ in cells)
+                if got != tuple(exp[1]):
+                    return "bad", dict(base, symptom="kind-mismatch", observed=str(got), expected=str(tuple(exp[1])))
+            else:
+                got = tuple(struct.pack(">d", float(parse_value(c_))) for c_ in cells)
+                if got != tuple(struct.pack(">d", v) for v in exp[1]):
+                    return "bad", dict(base, symptom="value-mismatch", observed=str(cells), expected=str(exp[1]))
+            return "ok", None
         cell = er.rows[0][1][0]
         val = parse_value(cell)
         typ = job.schema[0][1][0][1] if job.schema and job.schema[0][1] else ""
